@@ -1118,3 +1118,203 @@ def oracle_c10(tables, seed, tier, deep):
 
 ORACLES["C09"] = oracle_c09
 ORACLES["C10"] = oracle_c10
+
+
+# ------------------------------------------------------------------------------------------- C04
+
+ZONE_KEYS = {"query", "filter", "sort", "q", "update", "u", "updates", "deletes", "arrayFilters", "documents", "pipeline"}
+CMD_ATTRS = ("command", "cmd", "originatingCommand")
+# namespace-bearing command fields as the PROPERTY lists them (C12): verb value, $db, getMore's collection
+NS_FIELDS_SPEC = {"find", "aggregate", "insert", "update", "delete", "count", "findAndModify", "collection", "$db", "distinct",
+                  "findOneAndDelete", "findOneAndReplace", "findOneAndUpdate", "replace", "getIndexes", "countDocuments", "ns"}
+EXOTIC_NUMS = ["18446744073709551615", "-9223372036854775808", "1.0", "0.50", "1.5E3", "-0", "1e400", "0.1000000000000000055511151231257827",
+               "123456789012345678901234567890", "2.50e+3", "-0.0", "1E-7", "0e0"]
+EXOTIC_STRS = ["", "tab\there", "quote\"back\\slash", "nl\nline", "ünï çødé 😀", "<html>&amp;", "  ", "$notaref", "a@b.co", "\u0001\u001f",
+               "REDACTED", "255.255.255.255:65535"]
+
+
+def decorate(tree, rng):
+    """sprinkle exotic number literals / strings over positions OUTSIDE the zones: top level, attr, non-zone command fields"""
+    t = Obj(list(tree))
+    t.set("zqx", Obj([("n%d" % i, Num(rng.choice(EXOTIC_NUMS))) for i in range(3)] + [("s", rng.choice(EXOTIC_STRS)), ("arr", [Num(rng.choice(EXOTIC_NUMS)), [rng.choice(EXOTIC_STRS), None, True]])]))
+    attr = t.get("attr")
+    if isinstance(attr, Obj):
+        a = Obj(list(attr))
+        a.set("zqnum", Num(rng.choice(EXOTIC_NUMS)))
+        a.set("zqstr", rng.choice(EXOTIC_STRS))
+        a.set("zqdoc", Obj([("filter", Obj([("kept", "zq-not-a-zone")])), ("pipeline", [Obj([("$match", Obj([("k", Num(rng.choice(EXOTIC_NUMS)))]))])])]))
+        if rng.chance(1, 3):
+            a.set(rng.choice(["collection", "count", "update", "find", "$db"]), rng.choice(["zqattrcoll", Num("7")]))   # look-alike attribute names
+        for ck in CMD_ATTRS:
+            cd = a.get(ck)
+            if isinstance(cd, Obj):
+                c2 = Obj(list(cd))
+                c2.set("maxTimeMS", Num(rng.choice(EXOTIC_NUMS)))
+                c2.set("comment", rng.choice(EXOTIC_STRS))
+                c2.set("hint", Obj([("zqhintfield", Num(rng.choice(EXOTIC_NUMS)))]))
+                c2.set("readConcern", Obj([("level", "majority"), ("afterClusterTime", Obj([("$timestamp", Obj([("t", Num("1700000000")), ("i", Num("1"))]))]))]))
+                a.set(ck, c2)
+        t.set("attr", a)
+    return t
+
+
+def frame_diff(inp, out, cfg, eager_on):
+    """first difference between input and output OUTSIDE the positions C04 allows to change; None if clean.
+    returns (path, description)"""
+    def same(a, b, path):
+        # exact equality: kinds, keys+order, string contents, number TEXT
+        ka, kb = kind(a), kind(b)
+        if ka != kb:
+            return (path, "kind %s -> %s" % (ka, kb))
+        if ka == "obj":
+            if a.keys() != b.keys():
+                return (path, "keys %r -> %r" % (a.keys()[:8], b.keys()[:8]))
+            for (k, va), (_, vb) in zip(a, b):
+                d = same(va, vb, path + (k,))
+                if d:
+                    return d
+        elif ka == "arr":
+            if len(a) != len(b):
+                return (path, "len %d -> %d" % (len(a), len(b)))
+            for i, (va, vb) in enumerate(zip(a, b)):
+                d = same(va, vb, path + (i,))
+                if d:
+                    return d
+        elif ka == "num":
+            if str(a) != str(b):
+                return (path, "number literal %s -> %s" % (a, b))
+        elif a != b:
+            return (path, "%s %r -> %r" % (ka, a if not isinstance(a, str) else a[:60], b if not isinstance(b, str) else b[:60]))
+        return None
+
+    if kind(out) != "obj" or inp.keys() != out.keys():
+        return ((), "top-level keys %r -> %r" % (inp.keys(), out.keys() if kind(out) == "obj" else kind(out)))
+    comp = inp.get("c")
+    gated = (isinstance(comp, str) and comp in ("COMMAND", "QUERY", "WRITE")) or inp.get("msg") == "Slow query"
+    for (k, va), (_, vb) in zip(inp, out):
+        if k != "attr" or kind(va) != "obj":
+            d = same(va, vb, (k,))
+            if d:
+                return d
+            continue
+        if kind(vb) != "obj" or va.keys() != vb.keys():
+            return (("attr",), "attr keys changed")
+        for (ak, ava), (_, avb) in zip(va, vb):
+            p = ("attr", ak)
+            if ak == "remote" and cfg.i and isinstance(ava, str):
+                continue
+            if ak == "ns" and cfg.w and isinstance(ava, str):
+                continue
+            if ak == "planSummary" and eager_on and isinstance(ava, str):
+                continue
+            if ak in CMD_ATTRS and gated and kind(ava) == "obj":
+                if kind(avb) != "obj" or ava.keys() != avb.keys():
+                    if not eager_on:
+                        return (p, "command keys changed")
+                for (ck, cva), (_, cvb) in zip(ava, avb):
+                    if ck in ZONE_KEYS:
+                        continue
+                    if cfg.w and ck in NS_FIELDS_SPEC and isinstance(cva, str):
+                        continue
+                    d = same(cva, cvb, p + (ck,))
+                    if d:
+                        return d
+                continue
+            d = same(ava, avb, p)
+            if d:
+                return d
+    return None
+
+
+def kept_params(inp, out, path=(), depth=0, top_stage=None, in_zone=False):
+    """$limit / $skip numeric arguments at any pipeline depth and the listed top-level stage parameters must be kept (number text)"""
+    bad = []
+    if isinstance(inp, Obj) and isinstance(out, Obj) and inp.keys() == out.keys():
+        for (k, va), (_, vb) in zip(inp, out):
+            if in_zone and k in ("$limit", "$skip") and isinstance(va, Num):
+                if not (isinstance(vb, Num) and str(va) == str(vb)):
+                    bad.append((path + (k,), "%s argument %s -> %r" % (k, va, vb)))
+            bad += kept_params(va, vb, path + (k,), depth + 1, top_stage, in_zone or (k in ZONE_KEYS and len(path) == 2 and path[0] == "attr" and path[1] in CMD_ATTRS))
+    elif isinstance(inp, list) and isinstance(out, list) and len(inp) == len(out):
+        for i, (va, vb) in enumerate(zip(inp, out)):
+            bad += kept_params(va, vb, path + (i,), depth, top_stage, in_zone)
+    return bad
+
+
+def top_stage_params(inp, out):
+    bad = []
+    ai, ao = inp.get("attr"), out.get("attr") if isinstance(out, Obj) else None
+    if not isinstance(ai, Obj) or not isinstance(ao, Obj):
+        return bad
+    for ck in CMD_ATTRS:
+        ci, co = ai.get(ck), ao.get(ck)
+        if not isinstance(ci, Obj) or not isinstance(co, Obj):
+            continue
+        pi, po = ci.get("pipeline"), co.get("pipeline")
+        if not isinstance(pi, list) or not isinstance(po, list) or len(pi) != len(po):
+            continue
+        for i, (si, so) in enumerate(zip(pi, po)):
+            if not isinstance(si, Obj) or not isinstance(so, Obj) or len(si) != 1 or si.keys() != so.keys():
+                continue
+            st, arg = si[0]
+            argo = so[0][1]
+            want = {"$sample": ["size"], "$search": ["index"], "$searchMeta": ["index"], "$vectorSearch": ["index", "numCandidates", "limit"]}.get(st)
+            if want and isinstance(arg, Obj) and isinstance(argo, Obj):
+                for w in want:
+                    if arg.has(w) and isinstance(arg.get(w), (str, Num)) and not isinstance(arg.get(w), bool):
+                        a, b = arg.get(w), argo.get(w)
+                        if type(a) != type(b) or str(a) != str(b):
+                            bad.append((("attr", ck, "pipeline", i, st, w), "top-level stage parameter %s.%s %r -> %r" % (st, w, a, b)))
+    return bad
+
+
+def oracle_c04(tables, seed, tier, deep):
+    n = 1500 if (tier == "thorough" or deep) else 200
+    rng = SplitMix(seed ^ 0xC04)
+    cases = []
+    for cs in grammar_cases(seed ^ 4, n):
+        cases.append(Case(decorate(cs.tree, rng), cs.roles, cs.fields, cs.ns, "grammar"))
+    for i in range(n // 2):
+        cases.append(Case(decorate(other_line(rng, i), rng), kind="other"))
+    for cs in misc_cases(tables, seed ^ 44, n // 4):
+        cases.append(Case(decorate(cs.tree, rng), kind=cs.kind))
+    cfgs = [Cfg(), Cfg(n=True, b=True), Cfg(i=True), Cfg(w=True), Cfg(n=True, b=True, i=True, w=True), Cfg(repl="X"), Cfg(enc=3), Cfg(re="^(zqnum|kept|k|a)$")]
+    pairs = []
+    for i, cs in enumerate(cases):
+        for j in range(2):
+            c = cfgs[(i * 2 + j) % len(cfgs)]
+            pairs.append((cs, c))
+        if cs.ns and i % 3 == 0:
+            pairs.append((cs, Cfg(eager=(cs.ns.split(".")[0],), n=True)))
+            pairs.append((cs, Cfg(eager=("zq_other_namespace",), i=True)))
+    res = run_lines(pairs)
+    viol, dist = [], collections.Counter()
+    distinct = set()
+    for (cs, c), r in zip(pairs, res):
+        t = out_text(r)
+        if has_dups(cs.tree):
+            continue
+        dist[cs.kind] += 1
+        distinct.add(cs.text)
+        if t is None:
+            viol.append({"site": "frame:noline", "detail": "valid line produced no output: " + r[:80], "cfg": c.s(), "cli_flags": c.cli(), "input": cs.text})
+            continue
+        try:
+            o = parse_json(t)
+        except Exception as e:
+            viol.append({"site": "frame:badjson", "detail": str(e), "cfg": c.s(), "cli_flags": c.cli(), "input": cs.text, "output": t})
+            continue
+        ns = get_path(cs.tree, ("attr", "ns"))
+        eager_on = any(isinstance(ns, str) and ns.startswith(p) for p in c.eager)
+        d = frame_diff(cs.tree, o, c, eager_on)
+        if d:
+            viol.append({"site": "frame:" + site_of(d[0]), "detail": d[1], "cfg": c.s(), "cli_flags": c.cli(), "input": cs.text, "output": t})
+            continue
+        if not eager_on:
+            for pth, what in kept_params(cs.tree, o) + top_stage_params(cs.tree, o):
+                viol.append({"site": "kept:" + site_of(pth), "detail": what, "cfg": c.s(), "cli_flags": c.cli(), "input": cs.text, "output": t})
+    return result(viol, len(pairs), len(distinct), "grammar / other-component / arbitrary lines decorated with exotic number literals and strings outside the zones, x flag sets; exact tree comparison (number TEXT, key order) of everything outside the zones, the namespace fields (-w), attr.remote (-i), attr.planSummary (eager); $limit/$skip and top-level stage parameters inside",
+                  dist, [pairs[0][0].text[:400]] if pairs else [])
+
+
+ORACLES["C04"] = oracle_c04
